@@ -35,35 +35,69 @@ type trace struct {
 	prune  map[ast.Node]bool
 	fields int
 	idxs   int
+	// callbacks that arrived at a visitor value other than the one the traversal was handed for them
+	proto    []string
+	protoSig []string
 }
 
-// recVisitor is an immutable recording visitor: every Field/Index call returns a new visitor with a longer path.
+// recVisitor is an immutable recording visitor: every callback returns a NEW visitor value (go/ast style), Field/Index
+// with a longer path. The stage says which callback produced this value, so a traversal that sends a callback to the
+// wrong visitor (for instance Index to the visitor the list was reached with instead of the one VisitMany returned)
+// is observable: a visitor that keeps per-callback state would see a wrong path.
 type recVisitor struct {
-	t    *trace
-	path string
+	t     *trace
+	path  string
+	stage byte // 0 root, 'v' returned by Visit, 'm' by VisitMany, 'f' by Field, 'i' by Index
+}
+
+func stageName(s byte) string {
+	switch s {
+	case 0:
+		return "root"
+	case 'v':
+		return "Visit"
+	case 'm':
+		return "VisitMany"
+	case 'f':
+		return "Field"
+	case 'i':
+		return "Index"
+	}
+	return "?"
+}
+
+func (v recVisitor) proto(cb string, ok bool) {
+	if !ok && len(v.t.proto) < 4 {
+		v.t.proto = append(v.t.proto, cb+"-on-result-of-"+stageName(v.stage)+" at path "+strconv.Quote(v.path))
+		v.t.protoSig = append(v.t.protoSig, cb+"-on-"+stageName(v.stage))
+	}
 }
 
 func (v recVisitor) Visit(n ast.Node) ast.Visitor {
+	v.proto("Visit", v.stage == 0 || v.stage == 'f' || v.stage == 'i')
 	v.t.evs = append(v.t.evs, traceEv{kind: 'V', node: n, path: v.path})
 	if v.t.prune[n] {
 		return nil
 	}
-	return v
+	return recVisitor{v.t, v.path, 'v'}
 }
 
 func (v recVisitor) VisitMany(ns []ast.Node) ast.Visitor {
+	v.proto("VisitMany", v.stage == 0 || v.stage == 'f')
 	v.t.evs = append(v.t.evs, traceEv{kind: 'M', nodes: ns, path: v.path})
-	return v
+	return recVisitor{v.t, v.path, 'm'}
 }
 
 func (v recVisitor) Field(name string) ast.Visitor {
+	v.proto("Field", v.stage == 'v')
 	v.t.fields++
-	return recVisitor{v.t, v.path + "/" + name}
+	return recVisitor{v.t, v.path + "/" + name, 'f'}
 }
 
 func (v recVisitor) Index(i int) ast.Visitor {
+	v.proto("Index", v.stage == 'm')
 	v.t.idxs++
-	return recVisitor{v.t, v.path + "/#" + strconv.Itoa(i)}
+	return recVisitor{v.t, v.path + "/#" + strconv.Itoa(i), 'i'}
 }
 
 func pathOf(in astx.Info) string {
@@ -101,6 +135,10 @@ func sameNode(a, b ast.Node) bool {
 func checkTrace(c *Ctx, entry, input, what string, infos []astx.Info, prefix string, t *trace, prune map[ast.Node]bool) bool {
 	exp := expectedVisits(infos, prune)
 	k := 0
+	if len(t.proto) > 0 {
+		c.Violate("c17:protocol:"+t.protoSig[0], entry, input, fmt.Sprintf("%s: callback sent to the wrong visitor value: %s (a visitor that returns a fresh visitor per callback records a wrong path)", what, strings.Join(t.proto, "; ")))
+		return false
+	}
 	for _, ev := range t.evs {
 		switch ev.kind {
 		case 'V':
@@ -219,7 +257,7 @@ func CheckC17(c *Ctx, entry, input string, r interface{ IntN(int) int }) {
 		noteCells(c, infos)
 		// full walk
 		t := &trace{}
-		if pv, _ := callSUT(func() { ast.Walk(root, recVisitor{t, ""}) }); pv != nil {
+		if pv, _ := callSUT(func() { ast.Walk(root, recVisitor{t: t}) }); pv != nil {
 			c.Count("walk_panics_left_to_C04", 1)
 			continue
 		}
@@ -249,7 +287,7 @@ func CheckC17(c *Ctx, entry, input string, r interface{ IntN(int) int }) {
 				prune[infos[r.IntN(len(infos))].Node] = true
 			}
 			t := &trace{prune: prune}
-			if pv, _ := callSUT(func() { ast.Walk(root, recVisitor{t, ""}) }); pv != nil {
+			if pv, _ := callSUT(func() { ast.Walk(root, recVisitor{t: t}) }); pv != nil {
 				continue
 			}
 			checkTrace(c, entry, input, "Walk with pruning", infos, "", t, prune)
@@ -345,7 +383,7 @@ func CheckC17(c *Ctx, entry, input string, r interface{ IntN(int) int }) {
 	// *Many variants on lists
 	if IsListEntry(entry) && len(p.Roots) > 0 {
 		t := &trace{}
-		if pv, _ := callSUT(func() { ast.WalkMany(p.Roots, recVisitor{t, ""}) }); pv == nil {
+		if pv, _ := callSUT(func() { ast.WalkMany(p.Roots, recVisitor{t: t}) }); pv == nil {
 			// expected: VisitMany(roots) at "", then root i at "/#i" followed by its subtree
 			if len(t.evs) == 0 || t.evs[0].kind != 'M' || len(t.evs[0].nodes) != len(p.Roots) {
 				c.Violate("c17:walkmany-root", entry, input, "WalkMany did not start with VisitMany(all roots)")
